@@ -245,7 +245,7 @@ def run(chk):
     hx = L.loader_harness(build)
     oracle = None
     try:
-        oracle = common.build_oracle("loader", "Extract_loader", "loader_drv.ml", "loader_x")
+        oracle = L.loader_oracle()
     except Exception as e:
         chk.notes.append("oracle unavailable: %r" % (e,))
         if not getattr(chk, "proof_broken", None):
